@@ -51,7 +51,7 @@ REQUIRED = ["tree_resamplings", "branches_checked", "sample_points_checked", "ze
             "non_soma_roots", "instance_reused", "branch_isometric_checked", "integer_coordinate_branches",
             "branch_linear_checked", "branch_smoother_checked", "tree_smoother_checked", "assembler_identity_checked",
             "tap_assembler", "tap_resample", "rejected_calls_before_resampling",
-            "branch_trees_resampled", "size_sweep_cases"]
+            "branch_trees_resampled", "size_sweep_cases", "spacings_finer_than_8191_steps"]
 FLOOR = {"quick": 850, "thorough": 17000}
 SHARDS = {"quick": 8, "thorough": 16}
 TOL = 1e-4
@@ -255,6 +255,11 @@ def exec_tree(ctx, case):
         spacing = (pos[case["pick"] % len(pos)] / case["div"]) if pos else 1.0
     spacing = float(max(spacing, 1e-3 * ref, 1e-6))
     cap = 2500 if ctx.quick else 20000
+    if case.get("fine"):
+        # a spacing so fine that the longest branch alone takes more than 8191 / 16383 steps
+        spacing = max(lens) / float(case["fine"]) if lens and max(lens) > 0 else spacing
+        cap = 10**9
+        ctx.count("spacings_finer_than_8191_steps")
     if sum(lens) / spacing > cap:
         spacing = sum(lens) / cap
     fp = contracts.fingerprint(tree)
@@ -555,6 +560,14 @@ def run(ctx):
             else:
                 case = {"kind": "assembler", "tree": rc}
                 ctx.case(case, nontrivial=rc["n"] >= 3, klass="assembler")
+            execute(ctx, case)
+        if ctx.shard % 4 == 1 or not ctx.quick:
+            rc = {"shape": ["pair", "chain", "stem", "binary"][ctx.shard % 4], "n": 5,
+                  "numbering": "sorted", "geom": "growth", "types": "soma", "extras": 0,
+                  "seed": 1000 + 5 * (ctx.seed + ctx.shard)}
+            case = {"kind": "tree", "tree": rc, "spacing_mode": "rel", "factor": 1.0,
+                    "fine": [8200.5, 9000.25, 16390.5, 12000.75][ctx.shard % 4]}
+            ctx.case(case, klass="tree/fine-spacing")
             execute(ctx, case)
         sweep = G.sweep_recipes(ctx, max_small=4097, large=0 if ctx.quick else 1,
                                 numbering="sorted", shapes=["bamboo", "neuron", "caterpillar"])
